@@ -189,6 +189,9 @@ def uniform_configs(spec: NetSpec):
     for N in (1, 3):
         out.append((f"all-N{N}", replace(spec, links=tuple(replace(l, N=N) for l in spec.links))))
     out.append(("all-vsl", replace(spec, links=tuple(replace(l, vsl=tuple(range(l.N))) for l in spec.links))))
+    out.append(("all-N1-vsl-empty", replace(spec, links=tuple(replace(l, N=1, vsl=()) for l in spec.links))))
+    out.append(("all-N1-vsl", replace(spec, links=tuple(replace(l, N=1, vsl=(0,)) for l in spec.links))))
+    out.append(("all-N3-vsl-mid", replace(spec, links=tuple(replace(l, N=3, vsl=(1,)) for l in spec.links))))
     mixed = replace(
         spec,
         links=tuple(replace(l, N=(1, 3, 2)[i % 3], vsl=((0,) if i % 2 == 0 else None)) for i, l in enumerate(spec.links)),
